@@ -1,6 +1,7 @@
 import Sm9.Proofs.Conversions
 import Sm9.Proofs.FqField
 import Sm9.Model.Api
+import Sm9.Proofs.LibScalar
 /-!
 # C13 — Byte, decimal and hash conversions to field elements compute n mod p
 
@@ -11,8 +12,10 @@ observed through the canonical value, exactly `n mod p` (resp. `(h mod (r−1)) 
 bitwise long division returns the true remainder and quotient and its debug self-check
 holds.  Value level (`Api.*`, what the public functions return) states the same facts
 directly; the two levels are tied to the code by the correspondence check over every
-length 0..=70.  `from_str` is stated at value level only (the limb-level fold is a chain of
-`mul`/`add` already covered by C06) .
+length 0..=70.  `from_str`: the value-level function *is* the decimal fold reduced mod p (`from_str_digits`), it rejects as
+soon as a non-digit occurs, and the limb-level loop of fp.rs (table of the Montgomery forms of 0..10, `res*10 + digit` in
+Montgomery arithmetic) refines it and stays canonical (`from_str_limb_refines_fr/fq`; the loop itself is re-translated
+from the source on every run, `Gen/LimbEquiv.lean: Fp_from_str_equiv`, `LibFr_from_str_refines`).
 -/
 set_option exponentiation.threshold 1024
 namespace Sm9.C13
@@ -93,6 +96,22 @@ theorem to_big_endian_wrong_size (a : Fq) (n : Nat) (h : n ≠ 32) : Api.fqToBig
   unfold Api.fqToBigEndian; simp [h]
 theorem from_str_rejects (s : List Char) (h : s.all Char.isDigit = false) : Api.frFromStr s = none := by
   unfold Api.frFromStr; simp [h]
+/-- digit strings: the decimal value (most significant digit first), reduced mod r -/
+theorem from_str_digits (s : List Char) (h : s.all Char.isDigit = true) :
+    Api.frFromStr s = some (Fr.ofNat (s.foldl (fun acc c => acc * 10 + (c.toNat - 48)) 0)) := by
+  unfold Api.frFromStr; simp [h]
+theorem fq_from_str_digits (s : List Char) (h : s.all Char.isDigit = true) :
+    Api.fqFromStr s = some (Fq.ofNat (s.foldl (fun acc c => acc * 10 + (c.toNat - 48)) 0)) := by
+  unfold Api.fqFromStr; simp [h]
+/-- the limb-level loop (Montgomery table of 0..10, `res·10 + digit`) denotes exactly that and stays below the modulus -/
+theorem from_str_limb_refines_fr (s : List Char) :
+    (Fp.from_str paramsR s).map Fr.ofMont = Api.frFromStr s ∧ ∀ y, Fp.from_str paramsR s = some y → y < Consts.FR :=
+  Fr.from_str_refines s
+theorem from_str_limb_refines_fq (s : List Char) :
+    (Fp.from_str paramsQ s).map Fq.ofMont = Api.fqFromStr s ∧ ∀ y, Fp.from_str paramsQ s = some y → y < Consts.FQ :=
+  Fq.from_str_refines s
+/-- non-vacuity: "1234" -/
+example : Api.frFromStr ['1', '2', '3', '4'] = some (Fr.ofNat 1234) := by decide +kernel
 theorem set_bit_out_of_range (a : Fr) (i : Nat) (v : Bool) (h : i ≥ 256) : Api.frSetBit a i v = a := by
   unfold Api.frSetBit U256.set_bit
   simp only [h, if_true]
